@@ -491,29 +491,75 @@ def slot_budget(ctx, py):
     init, fin = ci.methods.get('__init__'), ci.methods.get('finalize')
     ctx.require(init is not None and fin is not None, 'anchor vanished: CountingInterpreter.__init__ / finalize')
     where = py.where(ci.module, fin)
-    # the loop that selects patterns: `while <counter> > 0 ...` adding to the suggestion set
-    loops = [n for n in _ast.walk(fin) if isinstance(n, _ast.While)]
-    sel = [lp for lp in loops if any(isinstance(x, _ast.Call) and isinstance(x.func, _ast.Attribute) and x.func.attr == 'add'
-                                     and 'suggest' in _ast.unparse(x.func.value) for x in _ast.walk(lp))]
+    # the loop that selects patterns: its body adds to the suggestion set, directly or through a private helper of the class.
+    # Two spellings bound the number of additions: `while <counter> > 0 ..: .. <counter> -= 1` and `for _ in range(<budget>)`.
+    INF = 10 ** 6
+
+    def is_add(x):
+        return isinstance(x, _ast.Call) and isinstance(x.func, _ast.Attribute) and x.func.attr == 'add' \
+            and 'suggest' in _ast.unparse(x.func.value)
+
+    def adds_of(stmts, depth=0):
+        """largest number of additions to the suggestion set on one path through stmts (INF if inside a nested loop)"""
+        best = 0
+        for sp in astpaths.paths(stmts):
+            n = 0
+            for a in sp.actions:
+                n += adds_of_node(a, depth)
+            best = max(best, n)
+        return best
+
+    def adds_of_node(a, depth):
+        if isinstance(a, (_ast.For, _ast.While)):
+            return INF if adds_of(a.body, depth) else 0
+        n = 0
+        for x in _ast.walk(a):
+            if is_add(x):
+                n += 1
+            elif isinstance(x, _ast.Call) and isinstance(x.func, _ast.Attribute) and isinstance(x.func.value, _ast.Name) \
+                    and x.func.value.id == 'self' and depth < 3:
+                hit = py.find_method(ci, x.func.attr)
+                if hit is not None and hit[1] is not fin:
+                    n += adds_of(hit[1].body, depth + 1)
+        return n
+
+    loops = [n for n in _ast.walk(fin) if isinstance(n, (_ast.While, _ast.For))]
+    sel = [lp for lp in loops if adds_of(lp.body)]
+    sel = [lp for lp in sel if not any(o is not lp and any(x is lp for x in _ast.walk(o)) for o in sel)] or sel
     ctx.require(len(sel) == 1, 'CountingInterpreter.finalize: selection loop not found')
     lp = sel[0]
-    m = [c for c in _ast.walk(lp.test) if isinstance(c, _ast.Compare) and isinstance(c.left, _ast.Name) and len(c.ops) == 1
-         and isinstance(c.ops[0], _ast.Gt) and _ast.unparse(c.comparators[0]) == '0']
-    ctx.ob('slot-budget', 'loop-bounded-by-counter', len(m) == 1 and (not isinstance(lp.test, _ast.BoolOp) or isinstance(lp.test.op, _ast.And)),
-           'the selection loop must stop when the slot counter reaches 0', py.where(ci.module, lp))
-    if len(m) != 1:
-        return
-    CNT = m[0].left.id
-    ok_dec = True
-    for sp in astpaths.paths(lp.body):
-        adds = sum(1 for a in sp.actions for x in _ast.walk(a) if isinstance(x, _ast.Call) and isinstance(x.func, _ast.Attribute)
-                   and x.func.attr == 'add' and 'suggest' in _ast.unparse(x.func.value))
-        decs = sum(1 for a in sp.actions if isinstance(a, _ast.AugAssign) and isinstance(a.op, _ast.Sub) and _ast.unparse(a.target) == CNT
-                   and _ast.unparse(a.value) == '1')
-        if adds > decs:
-            ok_dec = False
-    ctx.ob('slot-budget', 'one-slot-per-suggestion', ok_dec, 'every pattern added to the suggestions must take one slot off the counter',
-           py.where(ci.module, lp))
+    outside = sum(adds_of_node(st, 0) for st in fin.body if not any(x is lp for x in _ast.walk(st)))
+    ctx.ob('slot-budget', 'suggestions-only-in-the-loop', outside == 0,
+           'a pattern is added to the suggestions outside the counted selection loop: it takes a slot the budget does not see', where)
+    if isinstance(lp, _ast.For):
+        it = lp.iter
+        ranged = isinstance(it, _ast.Call) and isinstance(it.func, _ast.Name) and it.func.id == 'range' and len(it.args) == 1 \
+            and not it.keywords
+        ctx.ob('slot-budget', 'loop-bounded-by-counter', ranged,
+               'the selection loop must run at most once per free slot (`for _ in range(<slots>)`)', py.where(ci.module, lp))
+        if not ranged:
+            return
+        ctx.ob('slot-budget', 'one-slot-per-suggestion', adds_of(lp.body) <= 1,
+               'every iteration of the selection loop stands for one slot: it may add at most one pattern to the suggestions',
+               py.where(ci.module, lp))
+        CNT, cnt_expr = None, it.args[0]
+    else:
+        m = [c for c in _ast.walk(lp.test) if isinstance(c, _ast.Compare) and isinstance(c.left, _ast.Name) and len(c.ops) == 1
+             and isinstance(c.ops[0], _ast.Gt) and _ast.unparse(c.comparators[0]) == '0']
+        ctx.ob('slot-budget', 'loop-bounded-by-counter', len(m) == 1 and (not isinstance(lp.test, _ast.BoolOp) or isinstance(lp.test.op, _ast.And)),
+               'the selection loop must stop when the slot counter reaches 0', py.where(ci.module, lp))
+        if len(m) != 1:
+            return
+        CNT, cnt_expr = m[0].left.id, None
+        ok_dec = True
+        for sp in astpaths.paths(lp.body):
+            adds = sum(adds_of_node(a, 0) for a in sp.actions)
+            decs = sum(1 for a in sp.actions if isinstance(a, _ast.AugAssign) and isinstance(a.op, _ast.Sub) and _ast.unparse(a.target) == CNT
+                       and _ast.unparse(a.value) == '1')
+            if adds > decs:
+                ok_dec = False
+        ctx.ob('slot-budget', 'one-slot-per-suggestion', ok_dec, 'every pattern added to the suggestions must take one slot off the counter',
+               py.where(ci.module, lp))
     # value of the counter at loop entry as a linear form
     env = {}
     for n in init.body:
@@ -524,6 +570,9 @@ def slot_budget(ctx, py):
         txt = _ast.unparse(e)
         if txt in env and env[txt] is not None:
             return env[txt]
+        if isinstance(e, _ast.BinOp) and isinstance(e.op, (_ast.Add, _ast.Sub)):
+            a, b = val(e.left), val(e.right)
+            return a + (b.scale(-1) if isinstance(e.op, _ast.Sub) else b)
         return lin_index(e, {})
     why = ''
     for n in fin.body:
@@ -543,14 +592,20 @@ def slot_budget(ctx, py):
             env[t] = None
             if t in ('self._max_allowed_slots', CNT):
                 why = str(ex)
-    budget = env.get(CNT)
+    if CNT is not None:
+        budget = env.get(CNT)
+    else:
+        try:
+            budget = val(cnt_expr)
+        except ValueError as ex:
+            budget, why = None, str(ex)
     ok = budget is not None and set(budget.t) == {'#self.memory'} and budget.t['#self.memory'] == -1 and budget.c <= 256
     ctx.ob('slot-budget', 'budget', ok,
            f'the analyser may suggest at most 256 - len(self.memory) patterns (one-byte Load operand; the slots of the published axioms '
            f'are already taken); its counter starts at {budget if budget is not None else "a value that is not linear in len(self.memory)"}'
            f'{" (" + why + ")" if why else ""}: with enough axioms and repeated patterns the optimised serialisation needs a slot '
            f'number above 255 and cannot be written', where, facts={'counter at loop entry': repr(budget)})
-    ctx.floor('slot-budget', 3)
+    ctx.floor('slot-budget', 4)
 
 
 def run(ctx):
